@@ -148,3 +148,23 @@ add('C15', 'pickle-order-swapped', 'lib_guesser/omen/markov_cracker.py', "      
 add('C15', 'first-guess-not-restored', 'lib_guesser/omen/markov_cracker.py', "            self.cur_guess.first_guess = first_guess\n", "", 'fire', 'C15.R3')
 add('C15', 'omen-exit-cleared-after-restore', CSF, "                self.save_config.remove_option('guessing_info','omen_guess_number')\n", "                self.save_config.remove_option('guessing_info','omen_guess_number')\n                self.pcfg.omen_exit = False\n", 'fire', 'C15.R4')
 add('C15', 'marker-always-written', CSF, "        if self.pcfg.omen_exit:\n            self.save_config.set(", "        if True:\n            self.save_config.set(", 'fire', 'C15.R4')
+
+# ---- C04 ------------------------------------------------------------------------------------------------------
+add('C04', 'values-skip-first', PGF, "            for item in self.grammar[pt_type][index]['values']:\n                new_guess = cur_guess + item\n\n                # Figure out if the guess is ready to be printed out or if\n                # there is more to do\n                if len(pt) == 1:\n                    num_guesses += 1",
+    "            for item in self.grammar[pt_type][index]['values'][1:]:\n                new_guess = cur_guess + item\n\n                # Figure out if the guess is ready to be printed out or if\n                # there is more to do\n                if len(pt) == 1:\n                    num_guesses += 1", 'fire', 'C04.R2')
+add('C04', 'concat-prepends', PGF, "                new_guess = cur_guess + item\n\n                # Figure out if the guess is ready to be printed out or if\n                # there is more to do\n                if len(pt) == 1:\n                    num_guesses += 1\n                    self.print_guess(new_guess)\n\n                    # Check the limit\n                    if limit:\n                        limit = limit - 1\n                        if limit == 0:",
+    "                new_guess = item + cur_guess\n\n                # Figure out if the guess is ready to be printed out or if\n                # there is more to do\n                if len(pt) == 1:\n                    num_guesses += 1\n                    self.print_guess(new_guess)\n\n                    # Check the limit\n                    if limit:\n                        limit = limit - 1\n                        if limit == 0:", 'fire', 'C04.R2')
+MASKHEAD = "            mask_len = len(self.grammar[pt_type][index]['values'][0])\n\n            # Split off the part of the word we need to modify with the mask\n            start_word = [cur_guess[:- mask_len]]\n            end_word = cur_guess[- mask_len:]\n\n            for mask in self.grammar[pt_type][index]['values']:"
+add('C04', 'mask-prefix-off-by-one', PGF, MASKHEAD, MASKHEAD.replace("[cur_guess[:- mask_len]]", "[cur_guess[:- mask_len + 1]]"), 'fire', 'C04.R3')
+add('C04', 'mask-tail-whole-guess', PGF, MASKHEAD, MASKHEAD.replace("end_word = cur_guess[- mask_len:]", "end_word = cur_guess"), 'fire', 'C04.R3')
+add('C04', 'mask-upper-whole-then-index', PGF, "            for mask in self.grammar[pt_type][index]['values']:\n\n                # Apply the capitalization mask\n                new_end = []\n                index = 0\n                for item in mask:\n                    if item == 'L':\n                        new_end.append(end_word[index])\n                    else:\n                        new_end.append(end_word[index].upper())",
+    "            upper_word = end_word.upper()\n            for mask in self.grammar[pt_type][index]['values']:\n\n                # Apply the capitalization mask\n                new_end = []\n                index = 0\n                for item in mask:\n                    if item == 'L':\n                        new_end.append(end_word[index])\n                    else:\n                        new_end.append(upper_word[index])", 'fire', 'C04.R3')
+add('C04', 'count-not-incremented', PGF, "                if len(pt) == 1:\n                    num_guesses += 1\n                    self.print_guess(new_guess)\n\n                    # Check the limit\n                    if limit:\n                        limit = limit - 1\n                        if limit == 0:", "                if len(pt) == 1:\n                    self.print_guess(new_guess)\n\n                    # Check the limit\n                    if limit:\n                        limit = limit - 1\n                        if limit == 0:", 'fire', 'C04.R4')
+add('C04', 'recursive-count-dropped', PGF, "                    num_recursive_guesses = self._recursive_guesses(new_guess, pt[1:], limit)\n                    num_guesses += num_recursive_guesses\n                    \n", "                    num_recursive_guesses = self._recursive_guesses(new_guess, pt[1:], limit)\n                    \n", 'fire', 'C04.R4')
+add('C04', 'oserror-swallowed', PGF, '                print("Halting guess generation and exiting",file=sys.stderr)\n                raise OSError', '                print("Halting guess generation and exiting",file=sys.stderr)', 'fire', 'C04.R4')
+GROUP = "                if prob == prev_prob:\n                    grammar_section[-1]['values'].append(value)"
+add('C04', 'grouping-ge (same behaviour on sorted files)', GIO, GROUP, GROUP.replace("prob == prev_prob", "prob >= prev_prob"), 'silent')
+add('C04', 'grouping-tolerance', GIO, GROUP, GROUP.replace("prob == prev_prob", "abs(prob - prev_prob) < 1e-12"), 'fire', 'C04.R5')
+add('C04', 'grouping-le-merges-everything', GIO, GROUP, GROUP.replace("prob == prev_prob", "prob <= prev_prob"), 'fire', 'C04.R5')
+add('C04', 'group-prob-not-advanced', GIO, "                else:\n                    prev_prob = prob\n\n                    item = {", "                else:\n                    item = {", 'fire', 'C04.R5')
+add('C04', 'dispatch-drops-C', PGF, "        # If it is a capitalization mask\n        elif category == 'C':\n\n            mask_len = len(self.grammar[pt_type][index]['values'][0])\n\n            # Split off the part of the word we need to modify with the mask\n            start_word = [cur_guess[:- mask_len]]\n            end_word = cur_guess[- mask_len:]\n\n            for mask in", "        # If it is a capitalization mask\n        elif category == 'c':\n\n            mask_len = len(self.grammar[pt_type][index]['values'][0])\n\n            # Split off the part of the word we need to modify with the mask\n            start_word = [cur_guess[:- mask_len]]\n            end_word = cur_guess[- mask_len:]\n\n            for mask in", 'fire', 'C04.R1')
